@@ -21,6 +21,11 @@ LockFn realLock = nullptr, realUnlock = nullptr;
 thread_local bool tlOn = false;
 thread_local bool tlBusy = false;
 thread_local std::uint64_t tlState = 0;
+// targeted hold: the n-th upcoming pthread_mutex_unlock of this thread is delayed - the thread keeps
+// the mutex `holdBeforeUs` longer (another thread can queue up on it) and pauses `holdAfterUs` right
+// after releasing it (the queued thread runs before this one continues, e.g. before it notifies)
+thread_local int tlHoldCountdown = 0;
+thread_local unsigned tlHoldBeforeUs = 0, tlHoldAfterUs = 0;
 
 __attribute__((constructor)) void resolve()
 {
@@ -51,6 +56,12 @@ extern "C" void c03_sched_enable(std::uint64_t seed)
   tlOn = true;
 }
 extern "C" void c03_sched_disable() { tlOn = false; }
+extern "C" void c03_sched_hold_nth(int n, unsigned beforeUs, unsigned afterUs)
+{
+  tlHoldCountdown = n;
+  tlHoldBeforeUs = beforeUs;
+  tlHoldAfterUs = afterUs;
+}
 
 extern "C" int pthread_mutex_lock(pthread_mutex_t *m)
 {
@@ -61,6 +72,16 @@ extern "C" int pthread_mutex_lock(pthread_mutex_t *m)
 extern "C" int pthread_mutex_unlock(pthread_mutex_t *m)
 {
   if (!realUnlock) resolve();
+  if (tlHoldCountdown > 0 && !tlBusy && --tlHoldCountdown == 0)
+  {
+    tlBusy = true;
+    unsigned b = tlHoldBeforeUs, a = tlHoldAfterUs;
+    if (b) usleep(b);
+    int r = realUnlock(m);
+    if (a) usleep(a);
+    tlBusy = false;
+    return r;
+  }
   int r = realUnlock(m);
   perturb();
   return r;
